@@ -658,7 +658,7 @@ def emit_type(srcobj, name, log, derive='Clone, Copy, PartialEq, Eq, Structural'
 
 
 def emit_fn(srcobj, name, impl=None, nth=0, contract='', loops=None, never_loop=None, to_string=None,
-            proofs=None, prologue=None, stub=False, wrap_impl=None, log=None, subst=None, resname='res'):
+            proofs=None, prologue=None, drop_enumerate=None, stub=False, wrap_impl=None, log=None, subst=None, resname='res'):
     log = log if log is not None else []
     (s, kw, o, c) = srcobj.find_fn(name, impl, nth)
     orig = srcobj.src[s:c + 1]
@@ -688,6 +688,16 @@ def emit_fn(srcobj, name, impl=None, nth=0, contract='', loops=None, never_loop=
                 raise LostAnchor('fn %s: substitution anchor %r not found' % (name, a))
             body = body.replace(a, b)
             log.append('subst %r -> %r' % (a, b))
+        for ident in (drop_enumerate or []):
+            # R13: `for (idx, x) in E.enumerate()` whose index only fed R1-erased diagnostic strings -> `for x in E`
+            m = re.search(r'for\s*\(\s*' + re.escape(ident) + r'\s*,\s*(\w+)\s*\)\s+in\s+([^{]*?)\.enumerate\(\)\s*\{', body)
+            if not m:
+                raise LostAnchor('R13: no `for (%s, x) in E.enumerate()` loop' % ident)
+            new_body = body[:m.start()] + 'for %s in %s {' % (m.group(1), m.group(2).strip()) + body[m.end():]
+            if re.search(r'\b' + re.escape(ident) + r'\b', sub_code(new_body, r'"[^"]*"', '""')):
+                raise LostAnchor('R13 precondition: index `%s` is still used after R1' % ident)
+            body = new_body
+            log.append('R13 enumerate() dropped: index `%s` was only used in R1-erased diagnostic strings' % ident)
         sig, body = r7_mut_self(sig, body, log)
         if never_loop is not None:
             body = r4_never_loop(body, log, never_loop)
